@@ -11,6 +11,8 @@
 //   * trivial-success instances (row-high, polarity ANY, Σw ≤ Σ free − #segments·maxW) -> must not throw;
 //   * throw -> the circuit is unchanged;
 //   * the child never aborts / trips a sanitizer.
+// One case in three runs the measured call on an object with a PAST (lg::runLegalize with `prior`): the same
+// answers are demanded, because the property is about the circuit, not about how the object reached that state.
 #include "legalize_common.hpp"
 
 using namespace coloquinte;
@@ -19,14 +21,18 @@ struct Runner {
   vh::Out &out;
   explicit Runner(vh::Out &o) : out(o) {}
 
-  void run(const std::string &id, const Circuit &circ, const lg::LParams &lp, const std::string &stream) {
-    std::string text = lg::caseText(circ, lp);
+  void run(const std::string &id, const Circuit &circ, const lg::LParams &lp, const std::string &stream, const Circuit *prior = nullptr) {
+    std::string caseTxt = lg::caseText(circ, lp);
+    // what a failure records (and --replay reads back): the case, and the object's past when there is one
+    std::string text = caseTxt + (prior ? "prior\n" + lg::caseText(*prior, lp) : std::string());
     out.evaluations++;
-    out.ops << "case " << id << "\n" << text << "order\nlegalize\n";
+    out.ops << "case " << id << "\n" << caseTxt << "order\nlegalize\n";
     out.impl << "case " << id << "\n";
     lg::Facts f = lg::facts(circ);
     bool valid = lg::paramsValid(lp);
-    lg::RunResult r = lg::runLegalize(circ, lp, true);
+    lg::RunResult r = lg::runLegalize(circ, lp, true, prior);
+    if (prior) out.count("object_with_history");
+    if (r.diag.find("history-restore-mismatch") != std::string::npos) out.fail(id, "harness: the setters did not bring the reused object to the public state of the case", text);
     if (r.status != "ok" || r.answer.empty()) {
       out.impl << r.order << "\n" << "crash:" << r.status << "\n";
       out.fail(id, "Circuit::legalize did not return or throw: child " + r.status + " " + r.diag.substr(0, 300), text);
@@ -67,7 +73,7 @@ struct Runner {
     if (lp.ow < 0 || lp.ow > 1) out.count("params_ow_outside_unit");
     if (lp.ow != 0.2 || lp.oh != -1.0 || lp.oy != 0.0) out.count("params_nondefault");
     bool moved = threw || r.answer != vc::solutionString(circ);
-    if (f.nMov >= 2 && moved) out.nontrivial(vh::hashStr(text));
+    if (f.nMov >= 2 && moved) out.nontrivial(vh::hashStr(caseTxt));
     out.sample("case " + id + " " + stream + ": " + std::to_string(f.nMov) + " movable, util " + b + " -> " + r.answer.substr(0, 60));
   }
 };
@@ -81,7 +87,13 @@ int main(int argc, char **argv) {
   if (!a.replay.empty()) {
     Circuit c(0);
     lg::LParams lp;
-    if (lg::parseCase(lg::loadCaseFile(a.replay), c, lp)) r.run("replay", c, lp, "replay");
+    std::string txt = lg::loadCaseFile(a.replay);
+    size_t cut = txt.find("\nprior\n");
+    if (cut != std::string::npos) {  // a case on an object with a past
+      Circuit prior(0);
+      lg::LParams lp2;
+      if (lg::parseCase(txt.substr(0, cut + 1), c, lp) && lg::parseCase(txt.substr(cut + 7), prior, lp2)) r.run("replay", c, lp, "replay+hist", &prior);
+    } else if (lg::parseCase(txt, c, lp)) r.run("replay", c, lp, "replay");
     out.finish();
     return 0;
   }
@@ -126,7 +138,13 @@ int main(int argc, char **argv) {
       static const char *nm[] = {"directed_trivial", "directed_full", "directed_overfull", "directed_macro_cover"};
       stream = nm[mode];
     }
-    r.run(std::to_string(i), c, lp, stream);
+    // one case in three runs on an object with a past (computeRows + legalize of a perturbed circuit, then the setters)
+    if (g.chance(1, 3) && c.nbCells() > 0) {
+      Circuit prior = lg::genPrior(g, c);
+      r.run(std::to_string(i), c, lp, stream + "+hist", &prior);
+    } else {
+      r.run(std::to_string(i), c, lp, stream);
+    }
   }
   out.finish();
   return 0;
